@@ -238,7 +238,49 @@ def check(ctx, run):
         for r in interp.explore(fi, [], dict(input=W.tensor("x"), **kw), max_paths=50):
             if not r["raises"]:
                 judge(fname, fi, r["value"])
-    run.require("C17.R6", 40)
+    # the plumbing between the instruments and a result: parameter parsing, automatic Greeks, the averaging helper, the hedger's own results
+    # and the criteria's cash amounts (a helper that converts to the global default dtype turns a float64 computation into float32)
+    for pname, kws in (("parse_spot", [dict(spot=W.tensor("S")), dict(moneyness=W.tensor("m"), strike=W.tensor("K")), dict(log_moneyness=W.tensor("lm"), strike=W.tensor("K")),
+                                       dict(log_moneyness=W.tensor("lm"), strike=W.fl("Kf"))]),
+                       ("parse_volatility", [dict(volatility=W.tensor("v")), dict(variance=W.tensor("var"))]), ("parse_time_to_maturity", [dict(time_to_maturity=W.tensor("t"))])):
+        fi = prog.functions.get("pfhedge._utils.parse." + pname)
+        if fi is None:
+            raise AnalysisError(f"anchor vanished: {pname}")
+        for kw in kws:
+            for r in interp.explore(fi, [], dict(kw)):
+                if not r["raises"]:
+                    judge(f"{pname}({', '.join(kw)})", fi, r["value"])
+    em = prog.functions.get("pfhedge._utils.operations.ensemble_mean")
+    if em is None:
+        raise AnalysisError("anchor vanished: ensemble_mean")
+    for nt in (1, W.integer("n_times")):
+        for r in interp.explore(em, [Sym("function", ("callable",))], dict(n_times=nt), max_paths=20):
+            if not r["raises"]:
+                judge(f"ensemble_mean(n_times={'1' if nt == 1 else 'n'})", em, r["value"], user_callable_ok=True)
+    L_ = "pfhedge.nn.modules.loss."
+    for meth in ("compute_portfolio", "compute_pl", "compute_loss", "price"):
+        mfi = prog.lookup_method(W.HEDGER, meth)
+        if mfi is None:
+            raise AnalysisError(f"anchor vanished: Hedger.{meth}")
+        hh = W.hedger(prog, [W.feature("Moneyness", log=False)])
+        hh.attrs["criterion"] = Obj(L_ + "EntropicRiskMeasure", "criterion", dict(a=W.fl("a")))
+        kw_ = dict(n_times=W.integer("n_times")) if meth in ("compute_loss", "price") else {}
+        for r in interp.explore(mfi, [W.option()], kw_, self_obj=hh, max_paths=60):
+            if not r["raises"]:
+                judge(f"Hedger.{meth}", mfi, r["value"], events=r["events"])
+    for cls_, attrs_ in (("EntropicRiskMeasure", dict(a=W.fl("a"))), ("EntropicLoss", dict(a=W.fl("a"))), ("IsoelasticLoss", dict(a=W.fl("a"))), ("ExpectedShortfall", dict(p=W.fl("p"))),
+                         ("QuadraticCVaR", dict(lam=W.fl("lam")))):
+        for meth in ("forward", "cash"):
+            mfi = prog.lookup_method(L_ + cls_, meth)
+            if mfi is None:
+                raise AnalysisError(f"anchor vanished: {cls_}.{meth}")
+            try:
+                rs = [r for r in interp.explore(mfi, [W.tensor("pl"), W.tensor("target")], {}, self_obj=Obj(L_ + cls_, cls_.lower(), dict(attrs_)), max_paths=60) if not r["raises"]]
+            except Unsupported as ex:
+                raise AnalysisError(f"{cls_}.{meth}: {ex}")
+            for r in rs:
+                judge(f"{cls_}.{meth}", mfi, r["value"], events=r["events"])
+    run.require("C17.R6", 70)
 
 
 def no_override_rule(ctx, run):
